@@ -109,6 +109,22 @@ func genSubs(r *prng.Rand, n int) []uSub {
 	return out
 }
 
+// bigSubs builds one sublist whose D.6.2 encoding is exactly total octets long
+// (total >= 64): four instructions with one policy part each.
+func bigSubs(r *prng.Rand, total int) []uSub {
+	s := uSub{mcc: r.Range(99, 999), mnc: r.Range(9, 99)}
+	const k = 4
+	rest := total - 5 - 7*k // sublist header 2+3, per instruction 2+2, per part 2+1
+	for i := 0; i < k; i++ {
+		pn := rest / k
+		if i == k-1 {
+			pn = rest - (k-1)*(rest/k)
+		}
+		s.instrs = append(s.instrs, uInstr{upsc: uint16(r.Uint32()), parts: []uPart{{typ: byte(1 + r.Intn(4)), val: r.Bytes(pn)}}})
+	}
+	return []uSub{s}
+}
+
 // libSubLists builds the same structure through the library's API.
 func libSubLists(subs []uSub) (uePolicyContainer.UEPolicySectionManagementListContent, error) {
 	var lc uePolicyContainer.UEPolicySectionManagementListContent
@@ -179,6 +195,10 @@ func cmpSubLists(model []uSub, lc uePolicyContainer.UEPolicySectionManagementLis
 func c18Command(c *core.Ctx, k *core.Case) {
 	r := prng.New(uint64(k.I[0]))
 	model := genSubs(r, int(k.I[1]))
+	if len(k.I) > 3 && k.I[3] >= 64 {
+		model = bigSubs(r, int(k.I[3])) // list contents of exactly I[3] octets
+		c.Cover("list_content_octets", fmt.Sprint(k.I[3]))
+	}
 	pti := r.Byte()
 	c.Eval(1)
 	lc, err := libSubLists(model)
@@ -535,6 +555,20 @@ func init() {
 				}
 			}})
 		}
+		us = append(us, core.Unit{Name: "command-big", Weight: 60, Run: func(c *core.Ctx) {
+			// list contents up to the 16-bit maximum, with and without the trailing classmark:
+			// the octets behind the length field then number 65536 and more
+			for L := int64(65535 - c.Pick(12, 40)); L <= 65535; L++ {
+				for cm := int64(0); cm < 2; cm++ {
+					k := &core.Case{Oracle: "command", Target: "uePolicyContainer.UePolDeliverySer", I: []int64{int64(c.R.Uint64() >> 1), 1, cm, L}}
+					c.Do(k)
+					c.NonTrivial(k.Hash())
+				}
+			}
+			for _, L := range []int64{64, 255, 256, 257, 32767, 32768, 32769} {
+				c.Do(&core.Case{Oracle: "command", Target: "uePolicyContainer.UePolDeliverySer", I: []int64{int64(c.R.Uint64() >> 1), 1, L & 1, L}})
+			}
+		}})
 		top := 2
 		if tier == "thorough" {
 			top = 3
